@@ -6,6 +6,7 @@ mod c12;
 mod c13;
 mod c14;
 mod c15;
+mod c18a;
 mod c16a;
 pub mod expansion;
 pub mod front;
@@ -32,6 +33,7 @@ fn main() {
         "C14" => c14::run(ctx),
         "C15" => c15::run(ctx),
         "C16" => c16a::run(ctx),
+        "C18" => c18a::run(ctx),
         other => {
             eprintln!("vfront does not serve {other}");
             2
